@@ -71,6 +71,13 @@ def write_custom_qm_csv(root, codec, matrix="0 1 1 2"):
             done = True
     if not done:
         raise RuntimeError("could not set quantization_matrix of %s in the sample CSV" % codec)
+    # a second configuration: the same column made LOSSLESS (no picture_bytes) under the name <codec>-lossless
+    if col is not None:
+        for r in rows:
+            if r and len(r) > col and not r[0].startswith("#"):
+                r.append({"name": codec + "-lossless", "lossless": "TRUE", "picture_bytes": ""}.get(r[0], r[col]))
+            elif r:
+                r.append("")
     out = os.path.join(root, "codec_features_custom_qm.csv")
     with open(out, "w", newline="") as f:
         csv.writer(f).writerows(rows)
@@ -850,11 +857,13 @@ def run(ctx):
     serial_seeds = ctx.pick([0, gen_seed], [0, gen_seed, 1, 31337])
     with concurrent.futures.ThreadPoolExecutor(ctx.pick(14, 16)) as pool:
         f_serial = [pool.submit(serial_job, (os.path.join(root, "serial%d" % s), codec, s)) for s in serial_seeds]
+        f_lossless = [pool.submit(serial_job, (os.path.join(root, "lossless%d" % s), codec + "-lossless", s)) for s in (0, gen_seed)]
         f_ex = [pool.submit(extract_worker, (i, codes[i], exroot, 0)) for i in sorted(allw, key=lambda i: i in light)]
         f_runs = [pool.submit(run_schedule, s) for s in specs]
         serials = [f.result() for f in f_serial]
         exl = sorted([f.result() for f in f_ex], key=lambda r: r["idx"])
         runs = [f.result() for f in f_runs]
+        lossless = [f.result() for f in f_lossless]
     ex = {r["idx"]: r for r in exl}  # global worker index -> extraction
 
     ref = serials[0]["tree"]
@@ -890,6 +899,16 @@ def run(ctx):
 
     records, alarms, dis, by_tid = judge_runs(ctx, runs, ref, restrict_of, "trace validation of %d real runs (TestCaseGenTrace)" % len(runs))
     report_alarms(ctx, alarms, records, by_tid, codec, gen_seed, names)
+
+    # --- the lossless variant of the configuration: a second serial run, in another process under another hash
+    # seed, must reproduce the first one's tree (same clauses of TestCaseGenTrace, reference = its first run)
+    if lossless[0]["rc"] != 0 or sum(1 for v in lossless[0]["tree"].values() if v != "DIR") < 10:
+        raise RuntimeError("the serial run of the lossless configuration failed or produced nothing (rc %s): %s" % (lossless[0]["rc"], lossless[0]["err"]))
+    tid[0] += 1
+    lrun = {"events": [{"tid": tid[0], "ev": "begin", "kind": "serial:hashseed", "n": 1, "par": 1}, {"tid": tid[0], "ev": "start", "w": 1}, {"tid": tid[0], "ev": "end", "w": 1, "rc": lossless[1]["rc"]}], "tree": lossless[1]["tree"], "errs": {1: lossless[1]["err"]}, "spec": {"tid": tid[0], "kind": "serial:hashseed", "members": [0], "par": 1, "seeds": [gen_seed], "serial_seed": gen_seed, "codec": codec + "-lossless"}}
+    lrecords, lalarms, ldis, lby = judge_runs(ctx, [lrun], lossless[0]["tree"], lambda r: None, "trace validation of the repeated serial run of the lossless configuration (TestCaseGenTrace)")
+    report_alarms(ctx, lalarms, lrecords, lby, codec + "-lossless", gen_seed, names)
+    dis = dis + ldis
 
     # --- the interleaving model on the extracted operation lists
     fine = not ctx.quick
@@ -1081,6 +1100,7 @@ def replay(case):
         return {"violations": ["re-run the check"]}
     codec = case["codec"]
     root = tlc.mkscratch("c24replay")
+    write_custom_qm_csv(root, codec.replace("-lossless", ""))  # the scratch CSV the check itself generates from
     for sub in ("gen", "serial", "ex"):
         os.makedirs(os.path.join(root, sub))
     codes = gen_commands(codec, os.path.join(root, "gen"), case["gen_seed"])
